@@ -451,8 +451,8 @@ package parsley
 //@   requires GhostFloorPos < ctx.reader.Pos(0)
 //@   ensures  [one-of;C04] (n == nil) != (err == nil)
 //@   ensures  [valid] n != nil ==> NodeOK(n)
-//@   assert_at call#7 [ws-wins;C10] callres[Error](1, 2) != nil && IsWsErr(callres[Error](1, 2)) ==> same(lastarg[Error](1), callres[Error](1, 2))
-//@   assert_at call#7 [furthest;C06] callres[Error](1, 2) != nil && !IsWsErr(callres[Error](1, 2)) ==> lastarg[Error](1) != nil && lastarg[Error](1).Pos() >= callres[Error](1, 2).Pos() && (ctx.err != nil ==> lastarg[Error](1).Pos() >= ctx.err.Pos())
+//@   assert_at call:ErrorWithPosition#1 [ws-wins;C10] callres[Error](1, 2) != nil && IsWsErr(callres[Error](1, 2)) ==> same(lastarg[Error](1), callres[Error](1, 2))
+//@   assert_at call:ErrorWithPosition#1 [furthest;C06] callres[Error](1, 2) != nil && !IsWsErr(callres[Error](1, 2)) ==> lastarg[Error](1) != nil && lastarg[Error](1).Pos() >= callres[Error](1, 2).Pos() && (ctx.err != nil ==> lastarg[Error](1).Pos() >= ctx.err.Pos())
 //@   assigns  ctx.err, ctx.callCount, fields[Node](), fields[File](), elems[[]Node](), maps[ResultCache](), maps[map[Pos]*Result](), maps[map[string]*regexp.Regexp](), GhostCurtailed, GhostMaxFail, GhostCalls, GhostFloorPos, GhostFloorLrc, GhostLo, GhostHi
 
 //@ globalinv [no-value] ErrNoValue != nil && !typeis[Error](ErrNoValue)
